@@ -282,9 +282,6 @@ Definition prop_mainline_order (args : list bytes) : bytes :=
       let input := lookup_ids un (parse_ids l) in
       let authmap := dedup_events (lookup_ids un (parse_ids auth)) in
       let resolved := find_event pl un in
-      if negb (at_most_one_power_auth authmap (authmap ++ input ++ match resolved with Some p => [p] | None => [] end))
-      then bs "ok"
-      else
         let out := lookup_ids un (parse_ids obs) in
         if negb (Nat.eqb (length out) (length (parse_ids obs))) then bs "FAIL unknown-event"
         else if negb (bytes_eqb (join_ids (idsort (ids_of out))) (join_ids (idsort (ids_of input))))
@@ -427,8 +424,7 @@ Definition prop_v2 (args : list bytes) : bytes :=
         let un := decode_universe u in
         let ss := parse_sets un sets in
         let authl := lookup_ids un (parse_ids auth) in
-        if negb (spec_resolve_applies ss authl) then bs "ok"
-        else match ss, authl with
+        match ss, authl with
              | [], _ => bs "ok"
              | _, _ =>
                  let t := parse_table tbl in
